@@ -332,7 +332,7 @@ func (g *FuncGen) evRepoCall(c *ast.CallExpr, fi *FuncInfo, st *State) []Val {
 // inlineBody: a small repository function without a contract (typically a helper extracted from a function under
 // contract) is executed in place: its statements run on the caller's state with the callee's parameters bound to the
 // arguments, its return states are merged. Obligations raised inside are obligations of the caller. Not inlined:
-// recursion, closures, bodies of more than inlineMaxStmts statements, nesting deeper than inlineMaxDepth; anything
+// recursion, bodies of more than inlineMaxStmts statements, nesting deeper than inlineMaxDepth; anything
 // the executor cannot lower makes the attempt fall back to the havoc model, leaving no trace.
 const inlineMaxStmts = 30
 const inlineMaxDepth = 3
@@ -352,7 +352,8 @@ func (g *FuncGen) inlineBody(fi *FuncInfo, recv *Val, args []Val, st *State) (re
 		case ast.Stmt:
 			nst++
 		case *ast.FuncLit:
-			bad = true
+			// closures are opaque values (sort.Slice reads its closure from the AST): do not count their statements
+			return false
 		}
 		return true
 	})
@@ -421,6 +422,7 @@ func (g *FuncGen) inlineBody(fi *FuncInfo, recv *Val, args []Val, st *State) (re
 	resObjs := g.resVals
 	restore()
 	g.notes = append(g.notes, fmt.Sprintf("call to %s (no contract) inlined into %s", fi.Key, g.F.Key))
+	g.P.noteCall(fi.Key, true)
 	if final == nil {
 		// the callee never returns (os.Exit / panic on every path)
 		g.assume(st, "false")
@@ -602,6 +604,7 @@ func (g *FuncGen) applyContract(pos token.Pos, fi *FuncInfo, recv *Val, args []V
 		}
 		if fi.Spec == nil {
 			g.notes = append(g.notes, fmt.Sprintf("call to %s has no contract: results unconstrained, written fields havocked", fi.Key))
+			g.P.noteCall(fi.Key, false)
 		}
 	}
 	// hidden ghost state the callee may touch is lost to the caller whether or not the contract lists it
